@@ -60,6 +60,12 @@ impl Value {
 pub struct CallCache(HashMap<Key, Value>);
 
 impl CallCache {
+    /// Drop all cached functions, addresses in the cache are valid only for
+    /// a single debugee process.
+    pub fn clear(&mut self) {
+        self.0.clear();
+    }
+
     pub fn get_or_insert(
         &mut self,
         dbg: &Debugger,
